@@ -90,6 +90,21 @@ func step(rt *rapid.T, e *env) bool {
 			acts = append(acts, action{w, name})
 		}
 	}
+	if r.pend != nil && r.pend.notJoined {
+		// a leave on a channel that is not joined is outstanding: the room answers
+		// it with an error, or the application gives up
+		switch rapid.IntRange(0, 9).Draw(rt, "notJoinedLeaveNext") {
+		case 0, 1, 2:
+			return e.cancelCall(r)
+		case 3:
+			return e.available(r, withNick(r.bare, rapid.SampledFrom(otherNicks).Draw(rt, "occ")), false, genPresOpts(rt))
+		default:
+			if !r.pend.sent {
+				return e.cancelCall(r)
+			}
+			return e.errorPresence(r, r.bare, r.pend.id, rapid.SampledFrom(errConds).Draw(rt, "cond"), rapid.Bool().Draw(rt, "echox"))
+		}
+	}
 	pendJoin := r.pend != nil && r.pend.kind == "join" && r.pend.sent
 	pendLeave := r.pend != nil && r.pend.kind == "leave" && r.pend.sent
 	if r.pend == nil {
@@ -105,6 +120,9 @@ func step(rt *rapid.T, e *env) bool {
 			if r.lateConfirmed && !r.joined {
 				add(14, "rejoin")
 			}
+		}
+		if r.ch != nil && !r.joined && !r.unknown && !r.addrAmbig && !r.chAddr.Equal(jid.JID{}) {
+			add(2, "leave")
 		}
 		if r.ch != nil && r.joined && !r.unknown {
 			add(6, "leave")
@@ -309,6 +327,7 @@ func step(rt *rapid.T, e *env) bool {
 		}
 		s.typeAttr = rapid.SampledFrom([]string{"", "normal"}).Draw(rt, "mtype")
 		s.layout = rapid.IntRange(0, 4).Draw(rt, "ilayout")
+		s.idKind = rapid.SampledFrom([]int{0, 1, 1, 2}).Draw(rt, "iid")
 		return e.invite(s)
 	default:
 		return e.unrelated(rapid.IntRange(0, 8).Draw(rt, "ukind"), r)
